@@ -1,4 +1,11 @@
 // further harness modules
 pub(crate) mod util;
+pub(crate) mod uptable;
 mod h_alloc;
 mod h_names;
+pub(crate) mod h_dirent;
+pub(crate) mod h_dir;
+pub(crate) mod h_mini;
+mod h_exp;
+pub(crate) mod h_stor;
+pub(crate) mod h_cache;
